@@ -637,6 +637,7 @@ def run_exp(W, name, x0, ops, seed, variant="mem", ledger=None):
     stream = Stream(seed)
     cb, cbrefs, tunes, st = [], [], [], {"base": 0}
     per, call_used = [], []          # variates consumed inside each transition (step + tune) / by each sample, warmup call
+    aux_used = []                    # (what, variates) consumed by anything that is not a sample / warmup call
     led = ledger or Ledger()
     outs = []
     ckdir = None
@@ -718,15 +719,18 @@ def run_exp(W, name, x0, ops, seed, variant="mem", ledger=None):
                 pos += op[1]
             else:
                 fresh = attach(W.make_exp(name, x0))
+                a0 = stream.nvar
                 if variant == "file":
                     ckdir = ckdir or tmp_dir()
                     path = os.path.join(ckdir, "ckpt_%d.pkl" % pos)
-                    s.save_checkpoint(path)
+                    with stream, quiet():
+                        s.save_checkpoint(path)              # inside the compared stream: saving must not draw
                     led.give("checkpoint-file", path, rd_file)
                     with ScriptedRandom(seed + 7919), quiet():
                         fresh.load_checkpoint(path)
                 else:
-                    payload = s.get_state()
+                    with stream, quiet():
+                        payload = s.get_state()
                     led.give("get_state", payload, rd_state)
                     if variant in ("mem", "poison"):
                         payload = copy.deepcopy(payload)
@@ -740,10 +744,17 @@ def run_exp(W, name, x0, ops, seed, variant="mem", ledger=None):
                         if f is None:
                             raise RuntimeError("no extracted facts for %s" % type(fresh).__name__)
                         poisoned.extend(poison_irrelevant(fresh, f, warm_later))
-                    fresh.set_state(payload)
+                    with stream, quiet():
+                        fresh.set_state(payload)             # the fresh sampler was initialised outside; loading must not draw
+                if stream.nvar != a0:
+                    aux_used.append(("saving / loading the checkpoint at position %d" % pos, stream.nvar - a0))
                 s = fresh
                 last_resume = pos
-            hand_out(s, "%s" % (tuple(op),))
+            a0 = stream.nvar
+            with stream, quiet():
+                hand_out(s, "%s" % (tuple(op),))             # observers inside the compared stream: they must not draw
+            if stream.nvar != a0:
+                aux_used.append(("get_samples / get_state / get_history after %s" % (tuple(op),), stream.nvar - a0))
         led.recheck("the last operation")
         if len(s._samples):
             with quiet():
@@ -765,7 +776,7 @@ def run_exp(W, name, x0, ops, seed, variant="mem", ledger=None):
     return {"smp": smp, "nacc": len(s._acc), "acc": [canon_val(a) for a in s._acc[1:]], "cb": list(cb), "cb_now": cb_now, "outs_now": outs_now, "tunes": list(tunes),
             "last_resume": last_resume, "handout": led.bad, "ledger": led,
             "state": {k: canon_val(v) for k, v in sorted(s.get_state()["state"].items())},
-            "draws": stream.draws(), "per": list(per), "call_used": list(call_used), "nvar": stream.nvar, "gs_ok": gs_ok, "init": init_b[0] if init_b[0] is not None else canon(s.initial_point),
+            "draws": stream.draws(), "per": list(per), "call_used": list(call_used), "aux_used": list(aux_used), "nvar": stream.nvar, "gs_ok": gs_ok, "init": init_b[0] if init_b[0] is not None else canon(s.initial_point),
             "poisoned": poisoned, "sampler": s,
             "x0_given": (canon(np.asarray(build_x0(x0), dtype=float)) if x0 is not None else None),
             "acc_scalar": type(s).__name__ in ("MH", "PCN", "MALA") and not any(o[0] == "R" for o in ops),
@@ -855,6 +866,9 @@ def exp_check(ref, obs, ops):
                         init=ref["init_draws"])
     if bad_:
         return ("stream", bad_)
+    if obs.get("aux_used"):
+        return ("stream", "%s consumed %d variates of the random stream (checkpoints and observers are not transitions: the run continued "
+                "after them does not see the variates of the uninterrupted run)" % obs["aux_used"][0])
     if obs.get("handout"):
         return ("handout:" + obs["handout"][0], obs["handout"][1])
     if obs.get("x0_given") is not None and obs["init"] != obs["x0_given"]:
@@ -1514,6 +1528,10 @@ def hybrid_case(W, name, ops, seed, scribble=False, cache=None):
         kind = "tuning-schedule"
     elif obs["handout"]:
         bad, kind = "%s %s: %s" % (name, ops, obs["handout"][1]), "handout:" + obs["handout"][0]
+    elif obs["nvar"] != obs["built"] + sum(obs["call_used"]):
+        bad = "%s %s: %d variates of the random stream were consumed between the calls (get_samples() is not a transition)" % (
+            name, ops, obs["nvar"] - obs["built"] - sum(obs["call_used"]))
+        kind = "stream"
     elif obs["built"] != ref["built"] or stream_check(ref["per"], [o[1] for o in ops], obs["per"], obs["call_used"], ["%s" % (tuple(o),) for o in ops]):
         bad = "%s %s: %s" % (name, ops, "construction consumed %d variates in one run and %d in the other" % (obs["built"], ref["built"])
                              if obs["built"] != ref["built"] else
